@@ -626,6 +626,34 @@ def run(ctx):
             cfg.paths_must_pass(lb, 0, [k.bb for k in ins], [b]) for b in oks),
                "a path to Ok(..) in load_blocks skips loaded_templates.insert: the cycle check never trips",
                lb.loc)
+        # (d) the set holds loaded *parents* and nothing else: a new State starts with an empty set, and only load_blocks
+        # (or a private helper of it) adds to it.  Seeding it with the name of the rendered template (seed C06-8) turns a
+        # one-off template that extends the registered template of the same name into a "cycle".
+        STATE = "minijinja::vm::state::State"
+        n_init = 0
+        for g in prog.fns.values():
+            if g.crate != "minijinja":
+                continue
+            for bb, i, st in g.all_stmts():
+                rv = st.get("rv", {})
+                if st["k"] == "assign" and rv.get("k") == "agg" and rv.get("adt") == STATE:
+                    names = [fl["name"] for fl in prog.adt(STATE)["variants"][0]["fields"]]
+                    if "loaded_templates" not in names or len(rv["ops"]) != len(names):
+                        continue
+                    n_init += 1
+                    src = flow.origins(g, rv["ops"][names.index("loaded_templates")])
+                    empty = bool(src) and all(o.kind == "call" and o.call.name.split("::")[-1] in ("new", "default") for o in src)
+                    ctx.ob("C06.I2.loaded-set-starts-empty", "%s%s" % (tag, g.path), empty,
+                           "%s builds a State whose set of loaded templates is not empty (%s): names that no `extends` has loaded "
+                           "count as members of the inheritance chain, and extending a template of that name is refused as a "
+                           "cycle" % (g.path.split("::")[-1], [repr(o) for o in src][:3]), g.where(bb))
+            for k in g.calls():
+                if k.name.split("::")[-1] in ("insert", "extend", "append") and "BTreeSet" in k.name and k.args and any(
+                        "loaded_templates" in o.proj for o in flow.origins(g, k.args[0])):
+                    okw = g.path == lb.path or (not g.is_pub and all(c_.fn.path == lb.path for c_ in prog.callers().get(g.path, [])))
+                    ctx.ob("C06.I2.only-load_blocks-records-a-template", "%s%s|%s" % (tag, g.path, k.name.split("::")[-1]), okw,
+                           "%s adds to the set of loaded templates outside load_blocks" % g.path, g.where(k.bb))
+        ctx.floor("C06.I2 State constructors" + tag, n_init, 1)
 
         # ---- I4
         pgets = pi.calls_to(GET_T)
